@@ -243,7 +243,18 @@ def check(P, R):
             R.ob('C08.b', fn, st, False, detail=f'HeaderDict stores `{attr}` on the shared object')
     # the dict property reads/writes _ts
     dp = hd.attrs.get('dict')
-    ok = isinstance(dp, ast.Call) and dotted(dp.func) == 'property' and all('_ts' in src(a) for a in dp.args)
+    accessors = []
+    if isinstance(dp, ast.Call) and dotted(dp.func) == 'property':
+        for a in dp.args + [k.value for k in dp.keywords if k.arg in ('fget', 'fset', 'fdel')]:
+            if isinstance(a, ast.Name) and a.id in hd.methods:
+                accessors.append(hd.methods[a.id].node)      # property(_get_dict, _set_dict) over methods of the class
+            else:
+                accessors.append(a)
+    for st_ in hd.node.body:
+        # @property def dict(self) / @dict.setter def dict(self, v)
+        if isinstance(st_, ast.FunctionDef) and st_.name == 'dict' and any(dotted(d_) in ('property', 'dict.setter', 'dict.deleter') for d_ in st_.decorator_list):
+            accessors.append(st_)
+    ok = len(accessors) >= 2 and all('._ts' in src(a) for a in accessors)
     R.ob('C08.b', hd.fq, None, ok, text='dict = property over self._ts.dict', detail='' if ok else 'HeaderDict.dict is not a view of the thread-local')
     # other methods touch storage only through self._ts.dict / self.dict / self.items() etc.
     for name, f in hd.methods.items():
